@@ -53,13 +53,24 @@ class _Under:
     def rule(self, *a, **k):
         pass
 
-    def check(self, cond, rid, key, ok_detail, bad_msg, loc=None, path=None):
+    def _skip(self, rid, key):
         if self.only and rid != self.only:
+            return True
+        if self.rid == 'C16.R1':
+            # only the producers in use: signature side RollingChecksum::{new,digest}, scan side FastRollingChecksum::{new,roll,digest}
+            meth = key.split(':')[0] + '::' + key.split('::')[1].split(':')[0] if '::' in key else key
+            used = ('RollingChecksum::new', 'RollingChecksum::digest', 'FastRollingChecksum::new', 'FastRollingChecksum::roll',
+                    'FastRollingChecksum::digest', 'MOD')
+            return not any(key.startswith(u) for u in used)
+        return False
+
+    def check(self, cond, rid, key, ok_detail, bad_msg, loc=None, path=None):
+        if self._skip(rid, key):
             return bool(cond)
         return self.ctx.check(cond, self.rid, '%s:%s' % (rid.split('.')[-1], key), ok_detail, bad_msg, loc, path)
 
     def bad(self, rid, key, msg, loc=None, path=None):
-        if self.only and rid != self.only:
+        if self._skip(rid, key):
             return
         self.ctx.bad(self.rid, '%s:%s' % (rid.split('.')[-1], key), msg, loc, path)
 
